@@ -1454,6 +1454,19 @@ func (in *inliner) expand(s callSite) (eds []textEdit, a, b token.Pos, ok bool) 
 			return nil, 0, 0, false
 		}
 		if !leftmost(st.Cond, call) {
+			// `if a || h(x) { body } else { other }` is `c := a; if !c { c = h(x) }; if c { body } else { other }`
+			if be, isOr := ast.Unparen(st.Cond).(*ast.BinaryExpr); isOr && be.Op == token.LOR && containsNode(be.Y, call) && leftmost(be.Y, call) && !containsNode(be.X, call) {
+				cn := fmt.Sprintf("_inl%d_%dc", in.round, b0.id)
+				hoist, label := b0.build(modeTemps, tmp)
+				init := ""
+				if st.Init != nil {
+					init = in.text(st.Init.Pos(), st.Init.End()) + "\n"
+				}
+				rest := in.text(st.Body.Pos(), st.End())
+				txt := "{\n" + init + cn + " := " + in.text(be.X.Pos(), be.X.End()) + "\nif !" + cn + " {\n" + hoist + labelled(label) +
+					cn + " = " + in.text(be.Y.Pos(), call.Pos()) + tmp(0) + in.text(call.End(), be.Y.End()) + "\n}\nif " + cn + " " + rest + "\n}"
+				return []textEdit{{start: in.off(st.Pos()), end: in.off(st.End()), text: txt}}, st.Pos(), st.End(), true
+			}
 			// `if a && b && h(x) { body }` (no else) is `if a && b { if h(x) { body } }`: the call becomes
 			// the first thing the inner condition evaluates
 			if st.Else != nil {
@@ -2189,7 +2202,16 @@ func (b *bodyBuilder) usedOnceBeforeCalls(pv *types.Var) bool {
 				return true
 			}
 			if x.End() <= use.Pos() {
-				okc = false
+				// a call of another module's code (net.IP.String, strings.ToLower, ...) completed earlier cannot reach the
+				// caller's variables: the element read still happens in the same state
+				mod := b.s.callee.Pkg.Types.Path()
+				if i := strings.Index(mod, "/internal/"); i >= 0 {
+					mod = mod[:i]
+				}
+				fo, _ := typeutil.Callee(b.info, x).(*types.Func)
+				if fo == nil || fo.Pkg() == nil || fo.Pkg().Path() == mod || strings.HasPrefix(fo.Pkg().Path(), mod+"/") {
+					okc = false
+				}
 			}
 		}
 		return okc
@@ -2580,15 +2602,35 @@ func (b *bodyBuilder) build(mode int, tmp func(int) string) (string, string) {
 		if allBlank {
 			op = " = "
 		}
-		sb.WriteString(strings.Join(b.binds, ", ") + op + strings.Join(b.bindArgs, ", ") + "\n")
+		// one definition per parameter (so that a bound function literal or call is expanded by the next round) unless a
+		// later argument mentions an earlier parameter's name, which the earlier definition would capture
+		sequential := len(b.binds) > 1
+		for i := range b.binds {
+			for j := i + 1; j < len(b.bindArgs); j++ {
+				if b.binds[i] != "_" && mentionsName(b.bindArgs[j], b.binds[i]) {
+					sequential = false
+				}
+			}
+		}
+		if sequential {
+			for i, n := range b.binds {
+				o := " := "
+				if n == "_" {
+					o = " = "
+				}
+				sb.WriteString(n + o + b.bindArgs[i] + "\n")
+			}
+		} else {
+			sb.WriteString(strings.Join(b.binds, ", ") + op + strings.Join(b.bindArgs, ", ") + "\n")
+		}
 		var named []string
 		for _, n := range b.binds {
 			if n != "_" {
 				named = append(named, n)
 			}
 		}
-		if len(named) > 0 {
-			sb.WriteString(strings.TrimSuffix(strings.Repeat("_, ", len(named)), ", ") + " = " + strings.Join(named, ", ") + "\n")
+		for _, n := range named {
+			sb.WriteString("_ = " + n + "\n")
 		}
 	}
 	// named results are ordinary locals of the expanded block (zero-initialised)
